@@ -217,8 +217,20 @@ def run_cbmc(goto_file, unwind, unwindset, timeout_s, mem_gb, log_path, extra=No
     if status == "timeout":
         res["status"] = "timeout"
     elif not res.get("ok") or any(p.get("status") == "ERROR" for p in res["props"]):
-        res["status"] = "error"
-        res["messages"] = (res.get("messages") or []) + ["cbmc reported status ERROR (out of memory or solver failure)"]
+        txt = " ".join(res.get("messages") or []).lower()
+        try:
+            with open(log_path, "rb") as lf:
+                lf.seek(max(0, os.path.getsize(log_path) - 4000))
+                txt += lf.read().decode("utf-8", "replace").lower()
+        except OSError:
+            pass
+        if "out of memory" in txt or "bad_alloc" in txt or rc in (-9, -6, 134, 137):
+            # address-space limit of this job, the solver's own allocation failure, or the kernel's OOM killer
+            res["status"] = "memout"
+            res["messages"] = (res.get("messages") or []) + ["cbmc ran out of memory (limit %s GB, rc %s)" % (mem_gb, rc)]
+        else:
+            res["status"] = "error"
+            res["messages"] = (res.get("messages") or []) + ["cbmc reported status ERROR (solver failure)"]
     else:
         res["status"] = "done"
     return res
